@@ -2,5 +2,6 @@ package v2
 
 var zzRegistry = map[string]func(int){
 	"ZZ_C18": ZZ_C18,
+	"ZZ_C09Bulk": ZZ_C09Bulk,
 	"ZZ_C14Flag": ZZ_C14Flag,
 }
